@@ -119,6 +119,7 @@ def _case(draw):
         "lvl_frac": draw(st.sampled_from([0.0, 0.25, 0.5, 1.0])),
         "kx_exp": draw(st.sampled_from([0.0, 0.0, -0.5, -0.2, 0.2, 0.5])), "ky_off": draw(st.sampled_from([0.0, 0.0, 0.3, 1.0])),
     }
+    c["solo"] = draw(st.integers(0, 2)) == 0
     if draw(st.integers(0, 7)) == 0:
         c["fam"] = "constflow"
         c["kx_exp"], c["ky_off"] = draw(st.sampled_from([-0.5, 0.5, 0.2])), draw(st.sampled_from([0.0, 0.3]))
@@ -241,7 +242,10 @@ def check_case(c):
         # the slice examined must still be the one at the requested height (the "output heights" clause)
         others = [l for l in (n // 8, (5 * n) // 8, (7 * n) // 8) if l != lvl][:2]
         req = [others[0], lvl, others[1]] if others[0] > lvl else [lvl, others[1], others[0]] if others[1] > lvl else [others[1], others[0], lvl]
+        if c.get("solo"):
+            req = [lvl]  # the level on its own: the column above it still is the column that was handed over
         _, cc3, ff3 = sut.S(q, z, prof, dom, req, modes=(100, 100), halo=0.0, precision="double")
+        cc3, ff3 = sut.as3d(cc3), sut.as3d(ff3)
         cc, ff = cc3[req.index(lvl)], ff3[req.index(lvl)]
         Hc = np.fft.fft2(cc) / Q
         Hq = np.fft.fft2(ff) / Q
